@@ -239,11 +239,12 @@ fn inner(world_no: u64, t: &mut Tape, rep: &mut WorldReport) {
                 datum: if no_datum { None } else if t.chance(1, 4) { Some(tir::Expression::Number(t.draw(50) as i128)) } else { Some(tir::Expression::Struct(tir::StructExpr {
                     constructor: 0,
                     fields: vec![
-                        tir::Expression::Number(t.draw(50) as i128),
+                        tir::Expression::Number(if t.chance(1, 2) { *t.pick(&[7i128, 3]) } else { t.draw(50) as i128 }),
                         tir::Expression::Bytes(vec![0xAB, 0xCD]),
                         tir::Expression::List(vec![tir::Expression::Number(10), tir::Expression::Number(20), tir::Expression::Number(30)]),
                     ],
                 })) },
+                script: None,
             };
             set.insert(u.to_utxo(&(vec![0x40 + qi as u8; 32], j as u32)));
         }
